@@ -86,10 +86,13 @@ fn main() {
 		.with_memtable_stall_threshold(if manual { 4096 } else { 4 });
 	if versioning {
 		opts = opts.with_versioning(true, 0).with_vlog_value_threshold(0);
+		if flag("--index") {
+			opts = opts.with_versioned_index(true);
+		}
 	} else if vlog {
 		opts = opts.with_vlog_value_threshold(256).with_vlog_max_file_size(memtable as u64);
 	}
-	let opts_json = json!({"memtable": memtable, "levels": levels, "vlog": vlog, "versioning": versioning, "l0": l0});
+	let opts_json = json!({"memtable": memtable, "levels": levels, "vlog": vlog, "versioning": versioning, "l0": l0, "index": flag("--index")});
 	mark(&json!({"ev":"open_begin","gen":gen}).to_string());
 	let tree = match TreeBuilder::with_options(opts).build() {
 		Ok(t) => t,
